@@ -3,6 +3,7 @@ import math
 
 from ..srcmodel import AnalysisError
 from ..stages import estimates
+from ast import unparse as ast_unparse
 from ..algebra import Poly
 from ..ndarr import Arr, InterpRaise
 from ..pipeline import Pipeline
@@ -129,7 +130,13 @@ def wynn(ctx):
     cands = functions_calling(lim, ('dea3',))
     if len(cands) != 1:
         raise AnalysisError('anchor vanished: the function of limits.py that applies dea3 (candidates: %s)' % [c[0] for c in cands])
-    wynn_fn = I.closure_for(lim, cands[0][1], cands[0][2])
+    qual, wnode, wowner = cands[0]
+    params = [a.arg for a in wnode.args.args]
+    decos = [ast_unparse(d) for d in wnode.decorator_list]
+    if len(params) != 2 or (wowner is not None and 'staticmethod' not in decos):
+        # e.g. a method of a record that holds the table: the stage can no longer be driven with a table and its steps
+        raise AnalysisError('anchor vanished: the function that applies dea3 (%s) does not take (estimates, steps)' % qual)
+    wynn_fn = I.closure_for(lim, wnode, wowner)
     for rows, cols in ((3, 1), (5, 2), (4, 3)):
         der = Arr((rows, cols), [Poly.sym('d%d_%d' % (i, c)) for i in range(rows) for c in range(cols)])
         steps = Arr((rows, cols), [Poly.sym('h%d_%d' % (i, c)) for i in range(rows) for c in range(cols)])
